@@ -157,6 +157,7 @@ type Violation struct {
 	InKnown string // name of known-finding region, or ""
 	Msg     string
 	Pkg     string
+	CrashOK bool // a native process crash counts as reproduction (goroutine panic)
 }
 
 type TapeEntry struct {
@@ -253,6 +254,8 @@ type Path struct {
 	mapOrderFixed bool
 	advances     []advRec
 	delayVars    []*Term
+
+	taskPanicLabel string
 }
 
 type sideKey struct {
